@@ -2,7 +2,6 @@
    the code before the fix: commits did not satisfy the property. *)
 From Coq Require Import Reals Lra Psatz Bool Arith.
 From Coquelicot Require Import Coquelicot.
-From Interval Require Import Tactic.
 From RV Require Import Base.RB Base.RSpecial Gen.GenC09Hem Gen.GenC09Vg Gen.GenC09Merton Gen.GenC09Trunc Model.LevyClosedForms
   Proofs.C09_Generic Proofs.C09_Hem Proofs.C09_HemHalf Proofs.C09_XnExp Proofs.C09_Vg Proofs.C09_Merton Proofs.C09_Cgmy.
 Open Scope R_scope.
@@ -133,51 +132,69 @@ Qed.
 End Others.
 
 (* ------------------------------------------------------------------ behaviour before the fix: commits (witnesses) *)
-(* _helper_sum_fact_xk multiplied by k!, no sign rule: n = 2, alpha = 2, [1/2, 3/2] and n = 0 on [-3/2, -1/2] *)
+(* witnesses proved with exp_pos / exp_increasing only (no interval arithmetic: keeps coqchk of the C09 closure cheap) *)
+Lemma exp_m_lt_1 x : 0 < x -> exp (- x) < 1.
+Proof. intros H. rewrite <- exp_0. apply exp_increasing. lra. Qed.
+
+(* closed values of the helpers for n = 0 and n = 2 *)
+Lemma xn_helper_0 alpha u : alpha <> 0 -> xn_helper 0 alpha u = exp (- Rabs u * alpha) / alpha.
+Proof. intros H. unfold xn_helper, helper_sum_fact_xk. simpl. field. assumption. Qed.
+Lemma xn_helper_old_0 alpha u : alpha <> 0 -> xn_helper_old 0 alpha u = exp (- Rabs u * alpha) / alpha.
+Proof. intros H. unfold xn_helper_old. simpl. field. assumption. Qed.
+Lemma xn_helper_2 alpha u : alpha <> 0 -> 0 <= u * alpha ->
+  xn_helper 2 alpha u = (2 + 2 * (u * alpha) + (u * alpha) ^ 2) * exp (- Rabs u * alpha) / alpha ^ 3.
+Proof. intros H Hx. unfold xn_helper, helper_sum_fact_xk. simpl. rewrite (Rabs_pos_eq (u * alpha)) by assumption. field. assumption. Qed.
+Lemma xn_helper_old_2 alpha u : alpha <> 0 -> 0 <= u * alpha ->
+  xn_helper_old 2 alpha u = (2 + 2 * (u * alpha) + 4 * (u * alpha) ^ 2) * exp (- Rabs u * alpha) / alpha ^ 3.
+Proof. intros H Hx. unfold xn_helper_old. simpl. rewrite (Rabs_pos_eq (u * alpha)) by assumption. field. assumption. Qed.
+
 Theorem xn_exp_old_refuted :
   (exists n alpha a b, 0 < alpha /\ 0 <= a <= b /\ integral_xn_exp_old n alpha a b <> RInt (fun x => x ^ n * exp (- alpha * Rabs x)) a b) /\
   (exists n alpha a b, 0 < alpha /\ a <= b <= 0 /\ integral_xn_exp_old n alpha a b <> RInt (fun x => x ^ n * exp (- alpha * Rabs x)) a b).
 Proof.
   split.
-  - exists 2%nat, 2, (1/2), (3/2). split; [lra|]. split; [lra|].
-    rewrite (is_RInt_unique _ _ _ _ (xn_exp_is_RInt 2 2 (1/2) (3/2) ltac:(lra) ltac:(lra))).
-    rewrite xn_exp_pos by lra.
-    assert (H : integral_xn_exp_old 2 2 (1/2) (3/2) - (xn_helper 2 2 (1/2) - xn_helper 2 2 (3/2)) < - (1/100)).
-    { unfold integral_xn_exp_old, xn_helper_old, xn_helper, helper_sum_fact_xk. simpl. interval with (i_prec 50). }
-    lra.
-  - exists 0%nat, 2, (-3/2), (-1/2). split; [lra|]. split; [lra|].
-    rewrite (is_RInt_unique _ _ _ _ (xn_exp_is_RInt 0 2 (-3/2) (-1/2) ltac:(lra) ltac:(lra))).
-    rewrite xn_exp_neg by lra.
-    assert (H : integral_xn_exp_old 0 2 (-3/2) (-1/2) - (- sgn_even 0 * (xn_helper 0 2 (-3/2) - xn_helper 0 2 (-1/2))) < - (1/10)).
-    { unfold integral_xn_exp_old, xn_helper_old, xn_helper, helper_sum_fact_xk, sgn_even. simpl. interval with (i_prec 50). }
-    lra.
+  - (* k! instead of 1/k!: n = 2, alpha = 1, [0,1]: the two values differ by -3 e^-1 *)
+    exists 2%nat, 1, 0, 1. split; [lra|]. split; [lra|].
+    rewrite (is_RInt_unique _ _ _ _ (xn_exp_is_RInt 2 1 0 1 ltac:(lra) ltac:(lra))).
+    rewrite xn_exp_pos by lra. unfold integral_xn_exp_old.
+    rewrite !xn_helper_2, !xn_helper_old_2 by lra.
+    rewrite Rabs_R0, Rabs_R1. replace (- 0 * 1) with 0 by ring. rewrite exp_0.
+    pose proof (exp_pos (- (1) * 1)). intros E. lra.
+  - (* sign on the negative side: n = 0, alpha = 1, [-1,0]: old = e^-1 - 1 < 0 < 1 - e^-1 *)
+    exists 0%nat, 1, (-1), 0. split; [lra|]. split; [lra|].
+    rewrite (is_RInt_unique _ _ _ _ (xn_exp_is_RInt 0 1 (-1) 0 ltac:(lra) ltac:(lra))).
+    rewrite xn_exp_neg by lra. unfold integral_xn_exp_old, sgn_even. simpl Nat.even. cbv iota.
+    rewrite !xn_helper_0, !xn_helper_old_0 by lra.
+    rewrite Rabs_R0. replace (Rabs (-1)) with 1 by (rewrite Rabs_left; lra).
+    replace (- 0 * 1) with 0 by ring. rewrite exp_0.
+    replace (- (1) * 1) with (- (1)) by ring. pose proof (exp_m_lt_1 1 Rlt_0_1). intros E. lra.
 Qed.
 
-(* LevyMeasure.integrate_against_xn(a, b, 0) = integrate(a, a): for HEM it is 0 whatever the interval *)
 Theorem base_xn0_old_refuted : exists lam p e1 e2 a b, a <= b /\
   base_integrate_xn_old (hem_integrate 0 lam p e1 e2) (hem_integrate_x 0 lam p e1 e2) (hem_integrate_xx 0 lam p e1 e2) (fun _ _ _ => 0) a b 0
   <> RInt (fun x => x ^ 0 * hem_nu lam p e1 e2 x) a b.
 Proof.
-  exists 3, (2/5), 10, 5, (1/10), (1/2). split; [lra|].
-  rewrite (is_RInt_unique _ _ _ _ (hem_mass_is_RInt 0 3 (2/5) 10 5 (1/10) (1/2) ltac:(lra))).
+  exists 1, 1, 1, 1, 1, 2. split; [lra|].
+  rewrite (is_RInt_unique _ _ _ _ (hem_mass_is_RInt 0 1 1 1 1 1 2 ltac:(lra))).
   unfold base_integrate_xn_old. rewrite !hem_integrate_pos by lra.
-  assert (H : 0 < - (3) * (2/5) * (exp (- (10) * (1/2)) - exp (- (10) * (1/10)))) by (interval with (i_prec 50)).
-  intros Heq. lra.
+  assert (H : exp (- (1) * 2) < exp (- (1) * 1)) by (apply exp_increasing; lra).
+  intros E. lra.
 Qed.
 
-(* VG integrate_against_xn with `if b < 0`: on [-1, 0] (b = 0) it used lambda+ and the sign of the positive side *)
 Theorem vg_xn_old_refuted : exists c lm lp n a b, 0 < lm /\ 0 < lp /\ (1 <= n)%nat /\ a <= b /\
   vg_integrate_xn_old integral_xn_exp_minus_x c lm lp n a b <> RInt (fun x => x ^ n * vg_nu c lm lp x) a b.
 Proof.
-  exists 5, 20, 40, 1%nat, (-1), 0. repeat split; try lra; try auto.
-  rewrite (is_RInt_unique _ _ _ _ (vg_xn_is_RInt 5 20 40 ltac:(lra) ltac:(lra) 1 (-1) 0 ltac:(auto) ltac:(lra))).
+  exists 1, 1, 2, 1%nat, (-1), 0. repeat split; try lra; auto.
+  rewrite (is_RInt_unique _ _ _ _ (vg_xn_is_RInt 1 1 2 ltac:(lra) ltac:(lra) 1 (-1) 0 ltac:(auto) ltac:(lra))).
   rewrite vg_integrate_xn_neg by lra. unfold vg_integrate_xn_old.
   replace (Rltb 0 0) with false by (symmetry; apply Rltb_false; lra).
-  rewrite !xn_exp_neg by lra.
-  assert (H : - 5 * (- sgn_even (1 - 1) * (xn_helper (1 - 1) 20 (-1) - xn_helper (1 - 1) 20 0))
-              - 5 * (- sgn_even (1 - 1) * (xn_helper (1 - 1) 40 (-1) - xn_helper (1 - 1) 40 0)) < - (1/10)).
-  { unfold xn_helper, helper_sum_fact_xk, sgn_even. simpl. interval with (i_prec 50). }
-  lra.
+  rewrite !xn_exp_neg by lra. unfold sgn_even. simpl Nat.sub. simpl Nat.even. cbv iota.
+  rewrite !xn_helper_0 by lra.
+  rewrite Rabs_R0. replace (Rabs (-1)) with 1 by (rewrite Rabs_left; lra).
+  replace (- 0 * 1) with 0 by ring. replace (- 0 * 2) with 0 by ring. rewrite exp_0.
+  replace (- (1) * 1) with (- (1)) by ring. replace (- (1) * 2) with (- (2)) by ring.
+  pose proof (exp_m_lt_1 1 Rlt_0_1). assert (H2 : exp (- (2)) < 1) by (apply exp_m_lt_1; lra).
+  intros E. lra.
 Qed.
 
 (* ------------------------------------------------------------------ statements of Properties/C09.v assembled from the lemmas above *)
